@@ -174,6 +174,59 @@ def _eq_param(e):
     return ('?', '?')
 
 
+def route_replay(is_file, s1, s2):
+    """The solver's model (which of the two lexicons of the source _precheck marks as skipped) as a history on the real
+    code: the lexicons marked skipped are installed first, then the source with both lexicons is added through the
+    route; a lexicon of the source that is not installed afterwards reproduces the violation."""
+    def replay(res):
+        import os, shutil, tempfile
+        if res.z3model is None:
+            return {'reproduced': False}
+        skip = [z3.is_true(res.z3model.eval(v, model_completion=True)) for v in (s1, s2)]
+        from bounded import lmfgen
+        work = tempfile.mkdtemp(prefix='wnverif_route_replay_')
+        old = wn.config.data_directory
+        out = {'skipped (installed beforehand)': dict(zip(('aaa:1', 'bbb:1'), skip)),
+               'call': 'wn.add(file with aaa:1 and bbb:1)' if is_file else
+                       'wn.add_lexical_resource(lmf.load(file with aaa:1 and bbb:1))'}
+        try:
+            os.makedirs(os.path.join(work, 'data'))
+            wn.config.data_directory = os.path.join(work, 'data')
+            lexs = [lmfgen.minimal_lexicon('aaa'), lmfgen.minimal_lexicon('bbb')]
+            both = os.path.join(work, 'both.xml')
+            lmf.dump({'lmf_version': '1.0', 'lexicons': lexs}, both)
+            for lx, sk in zip(lexs, skip):
+                if sk:
+                    one = os.path.join(work, lx['id'] + '.xml')
+                    lmf.dump({'lmf_version': '1.0', 'lexicons': [lx]}, one)
+                    wn.add(one, progress_handler=None)
+            try:
+                if is_file:
+                    wn.add(both, progress_handler=None)
+                else:
+                    wn.add_lexical_resource(lmf.load(both, progress_handler=None), progress_handler=None)
+            except Exception as exc:   # noqa: BLE001
+                out['observed'] = f'{type(exc).__name__}: {exc}'
+                out['reproduced'] = True
+                return out
+            have = sorted(lx.specifier() for lx in wn.lexicons())
+            out['observed'] = f'installed afterwards: {have}'
+            out['expected'] = "installed afterwards: ['aaa:1', 'bbb:1']"
+            out['reproduced'] = have != ['aaa:1', 'bbb:1']
+            return out
+        finally:
+            try:
+                from wn import _db as wndb
+                for c in list(wndb.pool.values()):
+                    c.close()
+                wndb.pool.clear()
+            except Exception:   # noqa: BLE001
+                pass
+            wn.config.data_directory = old
+            shutil.rmtree(work, ignore_errors=True)
+    return replay
+
+
 def route_obligations() -> list:
     obs = []
     # _add_lmf and add_lexical_resource
@@ -240,10 +293,11 @@ def route_obligations() -> list:
                                       detail=f'calls {names}: _precheck over the lexicons of the source, then '
                                              '_add_lexical_resource(loaded resource, that skipmap)', **cm))
                 obs.append(Obligation(f'{qual}:route:{pid}:not-all-skipped', kind='post', assumptions=asm,
-                                      goal=z3.Not(allskip),
+                                      goal=z3.Not(allskip), replay=route_replay(is_file, s1, s2),
                                       detail='lexicons are added unless ALL lexicons of the source are skipped', **cm))
             else:
                 obs.append(Obligation(f'{qual}:route:{pid}:early-return', kind='post', assumptions=asm, goal=allskip,
+                                      replay=route_replay(is_file, s1, s2),
                                       detail='nothing is added only if ALL lexicons of the source are skipped', **cm))
     return obs
 
